@@ -133,6 +133,56 @@ def run(prog, check):
                  'self.%s (%s) is rewritten with the alias lookup' % (attr, text_sinks[attr]) if rewritten else
                  'self.%s (%s) is not touched by the alias pass: a placeholder embedded there survives into the final equations' % (attr, text_sinks[attr]),
                  "AddGlobalEquation('W', '', '2*' + hh.GetVariableName('F')) before main()")
+    # helpers through which the pass rewrites stored strings: returning the string unchanged needs a sound reason
+    helpers = []
+    for f in M.methods.values():
+        if f is san:
+            continue
+        if any(isinstance(c, ast.Call) and call_name(c) == f.name for c in ast.walk(san.node)) and \
+                any(isinstance(c, ast.Call) and call_name(c) in ('replace_token_from_lookup', 'replace_token') for c in ast.walk(f.node)):
+            helpers.append(f)
+    for hf in helpers:
+        check.saw(hf)
+        hp = hf.params()
+        if hp and hp[0] == 'self':
+            hp = hp[1:]
+        sp = hp[0]
+        hg = cfgmod.build(hf)
+        for rn in hg.stmt_nodes(lambda n: isinstance(n.ast, ast.Return)):
+            v = rn.ast.value
+            if not (isinstance(v, ast.Name) and v.id == sp):
+                continue
+            ok, why = False, 'unconditional / unrecognised early return of the unmodified string'
+            for t in hg.nodes:
+                if not hg.dominates(t, rn):
+                    continue
+                if t.kind == 'test':
+                    e = t.ast
+                    txt = unparse(e).replace(' ', '')
+                    te = [b for b, l in hg.succ[t.id] if l is True]
+                    on_true = rn.id in hg.reach(te, include_src=True) and rn.id not in hg.reach([b for b, l in hg.succ[t.id] if l is False], include_src=True)
+                    if on_true and (txt.startswith('type(%s)isnotstr' % sp) or txt.startswith('notisinstance(%s,str)' % sp)):
+                        ok, why = True, 'not a string'
+                    if on_true and isinstance(e, ast.UnaryOp) and isinstance(e.op, ast.Not) and isinstance(e.operand, ast.Call) and \
+                            call_name(e.operand) == 'any' and ' in %s ' % sp in ' ' + unparse(e.operand) + ' ':
+                        ok, why = True, 'no alias occurs in the string (not any(...))'
+                    if on_true and isinstance(e, ast.Compare) and isinstance(e.ops[0], ast.Eq) and 'len(' in txt and txt.endswith('==0'):
+                        ok, why = True, 'empty lookup'
+                if t.kind == 'for':
+                    # loop over the lookup exhausted without a hit: every iteration tests `alias in s` and returns the replacement
+                    lv = target_names(t.ast.target)
+                    body_ok = any(isinstance(x, ast.If) and isinstance(x.test, ast.Compare) and isinstance(x.test.ops[0], ast.In) and
+                                  unparse(x.test.left) in lv and unparse(x.test.comparators[0]) == sp and
+                                  any(isinstance(r, ast.Return) and r.value is not None and any(
+                                      isinstance(c, ast.Call) and call_name(c).startswith('replace_token') for c in ast.walk(r.value)) for r in ast.walk(x))
+                                  for x in t.ast.body)
+                    after = [b for b, l in hg.succ[t.id] if l is False]
+                    if body_ok and rn.id in hg.reach(after, include_src=True) and t.ast not in rn.loops:
+                        ok, why = True, 'the loop over all aliases found none in the string'
+            check.ob('C05.R1', '%s::unchanged-return' % hf.key, ok, '%s:%d' % (hf.module.rel, rn.line),
+                     'the string is returned unchanged only because ' + why if ok else
+                     'the string can be returned unchanged although it contains a placeholder (%s)' % why,
+                     'a global equation that embeds one of several registered placeholders')
     # sector blocks: the pass visits every sector
     all_sectors = any(isinstance(n, ast.For) and 'GetSectors' in unparse(n.iter) and any(
         isinstance(c, ast.Call) and call_name(c) == '_ReplaceAliases' for c in ast.walk(n)) for n in ast.walk(san.node))
